@@ -1,6 +1,6 @@
 SPECIFICATION Spec
 CONSTANTS
-  Names = {"foo", "foobar", "foo1", "a"}
+  Names = {"foo", "foobar", "foo-x", "a"}
   MaxDepth = 2
   MaxFiles = 3
 INVARIANTS RootIsCommonAncestor RootIsExistingDir RootIsDeepest PackagesInOrder ExportInv
